@@ -984,10 +984,21 @@ def build_unit(unit_path, repo=REPO):
                             break
             elif name == "R4":
                 it.d_R4(args[0], args[1], "R4")
+            elif name == "R4opt":
+                # like R4, but the target may be absent (the code no longer uses that construct)
+                try:
+                    it.d_R4(args[0], args[1], "R4")
+                except Undecided:
+                    pass
             elif name == "R6":
                 it.d_R4(args[0], args[1], "R6")
             elif name == "R1":
                 it.d_R4(args[0], args[1], "R1")
+            elif name == "inherent":
+                # R7-inherent: a trait impl's method is verified as an inherent method of the same type (same body,
+                # same self type) so that it can carry `requires` (Verus forbids `requires` on trait impl methods);
+                # what is dropped: the fact that the method is reached through the trait
+                it.d_R4(args[0], args[1], "R7-inherent")
             elif name == "closure":
                 # closure <fn> "<anchor: the closure text `|..| EXPR`>" <<< ensures ... >>> : names the closure's
                 # result vx_c and states its postcondition (ghost); the body EXPR stays in place, braces are added
